@@ -14,7 +14,7 @@ def decode(data: bytes):
     key_links = [k for k in sorted(c18.LINKS_KEY) if fdp.ConsumeBool()]
     file_links = [k for k in sorted(c18.LINKS_FILE) if fdp.ConsumeBool()]
     layout = {'keys': [['k1', 'k2'], ['k1'], []][fdp.ConsumeIntInRange(0, 2)], 'key_links': key_links, 'file_links': file_links,
-              'plainfile': fdp.ConsumeBool(), 'store_symlinked': fdp.ConsumeBool(), 'gitignore': fdp.ConsumeBool()}
+              'plainfile': fdp.ConsumeBool(), 'store_symlinked': fdp.ConsumeBool(), 'gitignore': fdp.ConsumeBool(), 'relative': fdp.ConsumeBool()}
     names = c18.VALID_KEYS + sorted(c18.LINKS_KEY) + c18.ADVERSARIAL
     files = c18.FILENAMES + sorted(c18.LINKS_FILE) + c18.ADVERSARIAL
 
@@ -24,8 +24,10 @@ def decode(data: bytes):
         return pool[fdp.ConsumeIntInRange(0, len(pool) - 1)]
     ops = []
     for _ in range(fdp.ConsumeIntInRange(1, 6)):
-        kind = fdp.ConsumeIntInRange(0, 7)
-        if kind >= 6:
+        kind = fdp.ConsumeIntInRange(0, 8)
+        if kind == 8:
+            ops.append({'op': 'chdir', 'to': ['outside', 'store', '.'][fdp.ConsumeIntInRange(0, 2)]})
+        elif kind >= 6:
             # focused: an existing (or symlinked-sibling, or new) key with a file-level name from the planted links
             focus_files = sorted(c18.LINKS_FILE) + ['f.txt', 'new.bin']
             ops.append({'op': 'file_handle', 'key': ['k1', 'lnk_sibling', 'newkey'][fdp.ConsumeIntInRange(0, 2)],
